@@ -259,3 +259,57 @@ def enclosing_conditions(fn, node):
         return False
     search(fn.body, [])
     return out
+
+
+def refreshed_after_write(fn, fields, is_refresh):
+    """The function writes self.<field> for field in `fields`; is_refresh(call_node) tells whether a call refreshes the
+    dependants (a notify(), a rebuild).  Returns (ok, why): ok iff a refresh call stands after the last such write and is
+    unconditional, or conditional only on a 'value changed' test that was evaluated before the write."""
+    writes = []
+    for st in ast.walk(fn):
+        tg = []
+        if isinstance(st, ast.Assign):
+            tg = st.targets
+        elif isinstance(st, (ast.AugAssign, ast.AnnAssign)):
+            tg = [st.target]
+        for t in tg:
+            for x in ast.walk(t):
+                if isinstance(x, ast.Attribute) and isinstance(x.value, ast.Name) and x.value.id == 'self' and x.attr in fields:
+                    writes.append(st)
+    if not writes:
+        return True, 'no direct write'
+    last = max(w.lineno for w in writes)
+    first = min(w.lineno for w in writes)
+    calls = [c for c in ast.walk(fn) if isinstance(c, ast.Call) and is_refresh(c)]
+    if not calls:
+        return False, 'no refresh call'
+    params = {a.arg for a in fn.args.args[1:]}
+    why = 'the refresh precedes the assignment: dependants are rebuilt from the old value'
+    for c in calls:
+        if c.lineno <= last:
+            continue
+        conds = enclosing_conditions(fn, c)
+        ok = True
+        for e, pol in conds:
+            if pol == 'in-loop':
+                continue
+            changed = False
+            if isinstance(e, ast.Name):
+                # a flag computed before the write: flag = value != self._field
+                ds = [s for s in ast.walk(fn) if isinstance(s, ast.Assign) and any(isinstance(t, ast.Name) and t.id == e.id for t in s.targets)]
+                if len(ds) == 1 and ds[0].lineno < first and pol is True and _is_changed_compare(ds[0].value, params, fields):
+                    changed = True
+            if not changed:
+                ok = False
+                why = 'the refresh after the assignment only happens when %s%s' % ('' if pol else 'not ', norm(e) if isinstance(e, ast.AST) else e)
+        if ok:
+            return True, 'refresh after the write'
+    return False, why
+
+
+def _is_changed_compare(e, params, fields):
+    if isinstance(e, ast.Compare) and len(e.ops) == 1 and isinstance(e.ops[0], (ast.NotEq, ast.IsNot)):
+        sides = [e.left, e.comparators[0]]
+        return any(isinstance(x, ast.Name) and x.id in params for x in sides) and \
+            any(isinstance(x, ast.Attribute) and isinstance(x.value, ast.Name) and x.value.id == 'self' and x.attr in fields for x in sides)
+    return False
